@@ -34,6 +34,9 @@ pub enum HOp {
 pub struct C18Case {
     pub root_named: bool,
     pub ops: Vec<HOp>,
+    /// The root imports `sub` through a path that contains a symbolic link.
+    #[serde(default)]
+    pub import_via_symlink: bool,
 }
 
 pub fn c18_case() -> impl Strategy<Value = C18Case> {
@@ -42,7 +45,11 @@ pub fn c18_case() -> impl Strategy<Value = C18Case> {
         3 => (0u8..6, 0u8..3).prop_map(|(input, kind)| HOp::Edit { input, kind }),
         1 => Just(HOp::ToggleFail),
     ];
-    (any::<bool>(), prop::collection::vec(op, 3..=9)).prop_map(|(root_named, ops)| C18Case { root_named, ops })
+    (any::<bool>(), prop::collection::vec(op, 3..=9), any::<bool>()).prop_map(|(root_named, ops, import_via_symlink)| C18Case {
+        root_named,
+        ops,
+        import_via_symlink,
+    })
 }
 
 /// Targets: 0 = root a, 1 = sub::b, 2 = root c (consumes sub::b.output), 3 = sub::f (fails on
@@ -52,6 +59,7 @@ const NT: usize = 7;
 
 struct Layout {
     root_named: bool,
+    import_via_symlink: bool,
 }
 
 impl Layout {
@@ -102,7 +110,13 @@ fn setup(sb: &Sandbox, l: &Layout) {
     if l.root_named {
         root.insert("name".into(), json!("root"));
     }
-    root.insert("imports".into(), json!({"sub": "sub"}));
+    if l.import_via_symlink {
+        let _ = std::fs::create_dir_all(sb.path("proj/vendor"));
+        let _ = std::os::unix::fs::symlink("../sub", sb.path("proj/vendor/sub"));
+        root.insert("imports".into(), json!({"sub": "vendor/sub"}));
+    } else {
+        root.insert("imports".into(), json!({"sub": "sub"}));
+    }
     root.insert(
         "targets".into(),
         json!({
@@ -188,7 +202,7 @@ fn route(l: &Layout, entry: u8, route: u8) -> (String, Vec<String>, Vec<usize>, 
 }
 
 pub fn eval_c18(case: &C18Case) -> CaseResult {
-    let l = Layout { root_named: case.root_named };
+    let l = Layout { root_named: case.root_named, import_via_symlink: case.import_via_symlink };
     let sb = Sandbox::new("c18");
     setup(&sb, &l);
     let mut rec: Vec<Rec> = vec![Rec::None; NT];
